@@ -16,8 +16,15 @@ vars == <<stage, f, out>>
 Dims == <<"base", "size", "cd", "ss", "pcm", "sr", "cp", "cm", "tf">>
 Done == Len(Dims) + 1
 
-BaseChoices == <<14, 7, 15, 0>>      \* hd1080p_50 (default), sd480i_60 (bottom field first), dc2k, custom_format
-Sizes == <<<<16, 8>>, <<4, 4>>, <<8, 4>>, <<12, 8>>, <<16, 32>>, <<64, 64>>, <<2, 2>>, <<36, 20>>, <<2, 4>>, <<64, 2>>>>
+BaseChoices == <<14, 7, 15, 0, 10>>  \* hd1080p_50 (default), sd480i_60 (bottom field first), dc2k, custom_format,
+                                     \* sd_pro486 (the one base format whose height is not a multiple of four)
+(* sizes: the first ten are multiples of four (or tiny); the rest cover every residue of the height and of *)
+(* the width modulo 4 (and odd values), where floor and ceiling roundings of a partition into bands, fields  *)
+(* or subsampled samples differ: 6, 10, 22, 486 = 2 (mod 4); 5 = 1; 7, 3 = 3; 486 lines is sd_pro486 at a    *)
+(* reduced width.  Irregular combinations (odd sizes with subsampling / fields) are dropped by the last     *)
+(* action, so every size occurs with every subsampling / scan / coding mode it is regular for.             *)
+Sizes == <<<<16, 8>>, <<4, 4>>, <<8, 4>>, <<12, 8>>, <<16, 32>>, <<64, 64>>, <<2, 2>>, <<36, 20>>, <<2, 4>>, <<64, 2>>,
+           <<6, 6>>, <<10, 10>>, <<7, 5>>, <<5, 7>>, <<3, 3>>, <<14, 22>>, <<18, 486>>>>
 CustomRanges == <<<<0, 256, 128, 256>>,      \* excursion = 2^k: needs k+1 bits
                   <<200, 255, 300, 255>>,    \* offsets that push nominal white beyond the bit depth
                   <<0, 1, 0, 1>>,            \* one-bit components
